@@ -14,7 +14,7 @@ GOALS = ["client EOF seen while the application runs", "500 before output", "clo
          "iterable closed once on client disconnect", "file wrapper file closed after sending", "file wrapper file closed on teardown",
          "worker survives a BaseException"]
 ASSUMPTIONS = ["one worker running the real handler_thread loop body; the I/O thread's turn (handle_write) follows the worker's",
-               "the client disconnect is a send() failing with EPIPE from a symbolic send onwards"]
+               "the client disconnect is a send() failing with EPIPE / EIO from a symbolic send onwards"]
 STUBS = ["as C01", "traceback.format_exc (fixed text)"]
 STEPS = (None, "call", "after_start_response", "iter0", "iter1", "write0", "write1", "close")
 CLASSES = ("Exception", "ValueError", "OSError", "ConnectionResetError", "BaseException")
@@ -47,7 +47,8 @@ KNOWN = {"D12-baseexception-not-contained": _d12, "D19-app-oserror-taken-for-soc
 
 def BOUNDS(tier):
     return ("application modes %r with 0..2 pieces; exception of class %r injected at step %r; client disconnect (EPIPE) from send number 1..3 "
-            "or never; expose_tracebacks and log_socket_errors on/off; HTTP/1.1 and 1.0 GET." % (MODES, CLASSES, STEPS))
+            "(errno EPIPE or EIO) or never; expose_tracebacks and log_socket_errors on/off; HTTP/1.1 and 1.0 GET with and without Connection: keep-alive."
+            % (MODES, CLASSES, STEPS))
 
 
 def jobs(tier):
@@ -79,9 +80,13 @@ def make_inputs(job):
         raise PathAbort()
     exc = CLASSES[eng.choose(len(CLASSES), "exc")] if step is not None else "Exception"
     disc = (None, 1, 2, 3)[eng.choose(4, "disc")]
+    # the failing send: EPIPE (the dispatcher itself treats it as a disconnect) or EIO (propagates to the channel's flush error handling)
+    derr = ("EPIPE", "EIO")[eng.choose(2, "derr")] if disc is not None else "EPIPE"
+    ka = bool(eng.choose(2, "ka"))
     eof = bool(eng.choose(2, "eof")) if step is None and disc is None else False
     return dict(mode=job["mode"], pieces=pieces, step=step, exc=exc, disc=disc, expose=bool(eng.choose(2, "expose")),
-                logsock=bool(eng.choose(2, "logsock")), ver=("1.1", "1.0")[eng.choose(2, "ver")], hascl=bool(eng.choose(2, "hascl")), eof=eof)
+                logsock=bool(eng.choose(2, "logsock")), ver=("1.1", "1.0")[eng.choose(2, "ver")], hascl=bool(eng.choose(2, "hascl")), eof=eof,
+                derr=derr, ka=ka)
 
 
 class FailApp:
@@ -229,14 +234,15 @@ def scenario(ns, inp):
     app = FailApp(inp, ns)
     sock = env.SimSocket()
     if inp["disc"] is not None:
-        sock.fail_send = lambda n, k=inp["disc"]: OSError(errno.EPIPE, "Broken pipe") if n >= k else None
+        code = getattr(errno, inp.get("derr", "EPIPE"))
+        sock.fail_send = lambda n, k=inp["disc"]: OSError(code, "send failed") if n >= k else None
     ch, srv, sock = common.new_channel(ns, adj, app, sock)
     d = ns.task.ThreadedTaskDispatcher()
     srv.add_task = d.add_task
     escaped = None
     worker_alive = True
     try:
-        ch.received(("GET / HTTP/%s\r\n\r\n" % inp["ver"]).encode())
+        ch.received(("GET / HTTP/%s\r\n%s\r\n" % (inp["ver"], "Connection: keep-alive\r\n" if inp.get("ka") else "")).encode())
         d.threads.add(0)
         d.active_count = 1
         d.queue.append(Sentinel(d))
